@@ -105,6 +105,59 @@ theorem C11_reentrant_init_counterexample :
       [.init 0 true, .init 0 true, .init 1 true, .init 1 true, .cleanup 1, .cleanup 0] := by
   decide +kernel
 
+/-! ### the scripts named in DESIGN §10 lesson (e), evaluated on the model of the present code -/
+
+/-- child's `onStart` calls `stop()` on its parent (which is inside `start()`): refused, the start-up
+completes; child's `onStop` calls `cleanup()` on itself and on the parent (both inside `stop()`): refused
+too; the trace is that of the undisturbed tree -/
+theorem C11_script_stop_parent_from_onStart :
+    (aRun true 60 (two id fun x => { x with sStart := [.call 0 .stop], sStop := [.call 1 .cleanup, .call 0 .cleanup] })
+      [(0, .init), (0, .start), (0, .stop), (0, .cleanup)]).tr =
+      [.init 0 true, .init 1 true, .start 0 true, .start 1 true, .stop 1, .stop 0, .cleanup 1, .cleanup 0] := by
+  decide +kernel
+
+/-- root 0 (required child 1) and a free-standing unnamed module 2 -/
+def twoFree (s0 s1 : Node → Node) : Store :=
+  (two s0 s1).set 2 { alive := true, named := false, cfg := false, initOk := true, startOk := true }
+
+/-- a child is `add()`ed from inside `onInit` of its parent-to-be (state still `kNone`: accepted; the index
+loop of `initialize()` then reaches it), and once more from `onStart` (state `kInited`: refused) -/
+theorem C11_script_add_from_parent_onInit :
+    let r := aRun true 60 (twoFree (fun x => { x with sInit := [.add 0 2 true], sStart := [.add 0 2 true] }) id)
+      [(0, .init), (0, .start), (0, .cleanup)]
+    r.tr = [.init 0 true, .init 1 true, .init 2 true, .start 0 true, .start 1 true, .start 2 true,
+            .stop 2, .stop 1, .stop 0, .cleanup 2, .cleanup 1, .cleanup 0] ∧
+    (r.σ.get 0).kids = [(1, true), (2, true)] := by
+  decide +kernel
+
+/-- … and from `onInit` of a sibling, while the parent walks `children_` -/
+theorem C11_script_add_from_sibling_onInit :
+    (aRun true 60 (twoFree id fun x => { x with sInit := [.add 0 2 false] }) [(0, .init), (0, .cleanup)]).tr =
+      [.init 0 true, .init 1 true, .init 2 true, .cleanup 2, .cleanup 1, .cleanup 0] := by
+  decide +kernel
+
+/-! ### LIFO nesting is NOT kept by arbitrary scripts (it is a theorem for trees driven through the root)
+
+-- OPEN (false): `stackRun ([], []) (aRun true fuel σ cs).tr ≠ none` for every program of scripts.  A hook may call the
+--      public API of a module that is not on top of the nesting order — module.h warns against driving a child by
+--      hand but does not forbid it; the re-entrancy guard only protects modules that are inside a lifecycle function. -/
+
+/-- root 0 with required children 1, 2, 3 -/
+def kidOf (p : Nat) : Node :=
+  { alive := true, named := true, cfg := true, initOk := true, startOk := true, hasParent := true, parent := p }
+
+def four (s3 : Node → Node) : Store :=
+  let r : Node := { alive := true, named := true, cfg := true, initOk := true, startOk := true }
+  (((({} : Store).set 0 { r with kids := [(1, true), (2, true), (3, true)] }).set 1 (kidOf 0)).set 2 (kidOf 0)).set 3 (s3 (kidOf 0))
+
+/-- child 3's `onInit` cleans up its eldest sibling: gating and balance hold (`C11_scripts_*`), nesting does not -/
+theorem C11_scripts_nesting_counterexample :
+    let r := aRun true 60 (four fun x => { x with sInit := [.call 1 .cleanup] }) [(0, .init), (0, .cleanup)]
+    r.thrown = false ∧
+    r.tr = [.init 0 true, .init 1 true, .init 2 true, .cleanup 1, .init 3 true, .cleanup 3, .cleanup 2, .cleanup 0] ∧
+    stackRun ([], []) r.tr = none ∧ (∀ m < 4, hookRun m .none r.tr = some .none) := by
+  decide +kernel
+
 /-! ### a hook that throws — outside the property (assumption), shown to break it
 
 -- OPEN (by design of the code): an exception from a user hook propagates through initialize()/start()/stop()/
